@@ -208,6 +208,9 @@ fn run<T: Sc>(case: &C07Case) -> Check {
     out.class(format!("S={s}"));
     out.class(base.weight_class());
     out.class(base.flavour());
+    for r in base.regime() {
+        out.class(r);
+    }
     skipped.sort();
     skipped.dedup();
     for s in skipped {
@@ -240,7 +243,7 @@ impl Property for C07 {
             any::<u16>(),
             -2.0f64..2.0,
             -2.0f64..2.0,
-            crate::gen::family_strategy(crate::gen::FamCfg { max_s: 5, min_n: 30, max_n: 120, noise_lo: 1e-6, noise_hi: 1e-3, noiseless_16: 4, start_rel: 0.03, allow_f32: false, weights: true, calibrated_weights: false, extra_families: false, wide_weights: false, max_decays: 3 }),
+            crate::gen::family_strategy(crate::gen::FamCfg { max_s: 5, min_n: 30, max_n: 120, noise_lo: 1e-6, noise_hi: 1e-3, noiseless_16: 4, start_rel: 0.03, allow_f32: false, weights: true, calibrated_weights: false, extra_families: false, wide_weights: false, max_decays: 3, units: true, long_data: true }),
         )
             .prop_map(|(mut base, lm, perm_keys, raws, dupsel, fa, fb, fam)| {
                 base.mrhs = true;
@@ -264,6 +267,9 @@ impl Property for C07 {
                 C07Case { base, lm, perm_keys, updates, fam }
             })
             .boxed()
+    }
+    fn pool_of(&self, case: &Self::Case) -> Option<usize> {
+        case.base.pool_size()
     }
     fn check(&self, case: &C07Case) -> Check {
         if case.base.f32 {
